@@ -9,7 +9,7 @@ Extraction "model.ml"
   N.of_uint N.to_uint N.add N.mul N.div N.modulo N.eqb N.ltb N.leb N.of_nat N.to_nat
   uint_of_bytes bytes_of_uint to_dec parse_usize parse_bounded utf8_valid lower
   encode decode u16_be opt_name opt_of_name recognise u16_of_errcode errcode_of_u16 u16_of_opcode opcode_of_u16
-  window_new file_for_read file_created mk_file wrun wstep written_bytes
+  window_new file_for_read file_created mk_file wrun wstep written_bytes w_len w_is_empty w_is_full
   send_init send_step recv_init recv_step recv_final_file
   max_retries
-  okC10 okC11_enc okC11_conv rfc_layout.
+  okC10 okC11_enc okC11_conv rfc_layout okSend okRecv fnv_extend fnv_init.
